@@ -6,9 +6,16 @@ META = dict(
   assumptions=['geometries: two crossing triangles subject/clip (Intersection); triangle inside a square (no crossings); two overlapping subjects with a distant clip (Difference)'],
   outside=['all other geometry', 'offsetting / rect clipping / ClipperD Z handling'],
 )
+SPLIT = {'bool Clipper2Lib::GetSegmentIntersectPt<long>(': 'stub_gsip', 'Clipper2Lib::Area(Clipper2Lib::OutPt': 'stub_area_op', 'Clipper2Lib::AreaTriangle(': 'stub_area_tri',
+         'Clipper2Lib::Path1InsidePath2(Clipper2Lib::OutPt': 'stub_p1inp2', 'Clipper2Lib::ClipperBase::NewOutRec(': 'stub_newoutrec'}
 OBLIGATIONS = [
+  O('C15.b-dosplitop-z', 'eng_units.cpp', 'harness_dosplitop', defs=['SN=5', 'G=4611686018427387904LL'], usingz=True, replace=SPLIT, unwind=8, timeout=600, bound='ring of 5 output points with coordinates in [0,2^62] with arbitrary z, any intersection point, any area verdicts, with and without callback', desc='self-intersection repair: the callback is called once with the two crossing segments and the new point; every vertex created (in the repaired ring and in the split-off triangle) carries the z the callback assigned (0 without callback); input vertices keep their z'),
   O('C15.ab-z-accounting-same-type', 'eng_z.cpp', 'harness_z_accounting', defs=['GEOM=2'], usingz=True, unwind=18, timeout=900, expect_from=('eng_plain.cpp', [], 'expect_geom2'),
     bound='two overlapping subject triangles and a distant clip, Difference; all z labels, DefaultZ, callback values', desc='same-type crossings (local minima / maxima created at crossings): same x,y as the plain build and every z accounted for'),
+  O('C15.ab-z-accounting-split-join', 'eng_z.cpp', 'harness_z_accounting', defs=['GEOM=3'], usingz=True, unwind=18, timeout=900, expect_from=('eng_plain.cpp', [], 'expect_geom3'),
+    bound='needle triangles (26,3)(1,16)(29,4) - (16,9)(20,21)(14,1) on a 30-grid, Difference; all z labels, DefaultZ, callback values', desc='a joined edge pair is split at a crossing (ClipperBase::Split): the vertex created there is accounted for'),
+  O('C15.ab-z-accounting-join-at-crossing', 'eng_z.cpp', 'harness_z_accounting', defs=['GEOM=4'], usingz=True, unwind=18, timeout=1200, expect_from=('eng_plain.cpp', [], 'expect_geom4'),
+    bound='two 5-gons on a 50-grid (listed in eng_z.cpp), Intersection; all z labels, DefaultZ, callback values', desc='edges joined at a rounded crossing (CheckJoinLeft/Right): the vertex created there is accounted for'),
   O('C15.ab-z-accounting-crossing', 'eng_z.cpp', 'harness_z_accounting', defs=['GEOM=0'], usingz=True, unwind=14, timeout=600, expect_from=('eng_plain.cpp', [], 'expect_geom0'),
     bound='two crossing triangles; all z labels, DefaultZ, callback values', desc='same x,y as the plain build; every solution z is an input z at that point, a callback value for that point, or DefaultZ'),
   O('C15.ab-z-accounting-nested', 'eng_z.cpp', 'harness_z_accounting', defs=['GEOM=1'], usingz=True, unwind=14, timeout=600, expect_from=('eng_plain.cpp', [], 'expect_geom1'),
